@@ -80,8 +80,8 @@ def match_nested_sum(t, depth):
     return cur, lvs
 
 
-def run(ctx):
-    ctx.explanation = EXPLANATION
+def direction_rules(ctx):
+    """R02.1-R02.3: bin widths, e, a1..b2 of the 2-D class (shared with C03/C12, which build on them)"""
     p = ctx.program
     ctx.trust("np.diff(x, append=a): forward differences of x followed by a", "xarray .sum(dim, skipna=True) skips NaN",
               "xarray reductions over a named dim skip NaN for float data by default")
@@ -119,6 +119,13 @@ def run(ctx):
         ctx.equiv("R02.3", f"FrequencyDirectionSpectrum.{name}", r, refs[name], f.loc(),
                   f"{name} == sum_dir(E*{h.__name__}({m}*theta)*width)/e", interp=it)
     refs["variance_density"] = e_ref
+    return it, me, refs, e_ref
+
+
+def run(ctx):
+    ctx.explanation = EXPLANATION
+    p = ctx.program
+    it, me, refs, e_ref = direction_rules(ctx)
 
     # R02.4 reduction to 1-D
     f = p.get_method(CLS_2D, "as_frequency_spectrum")
